@@ -178,7 +178,7 @@ func (w *World) finalChecks(capHit bool) {
 				if capHit {
 					cls = "stalled"
 				}
-				if w.singleAcceptLoopBlocked() && rt.sconn == nil {
+				if w.starvedByHostile(rt, werr+" "+rend) {
 					cls = "new-session-starved:single-accept-loop-held-by-hostile-session"
 				}
 				w.violate(prop, cls, "%s dir %d: %d of %d bytes delivered (written ok %d); reader end: %q", rt.key, d, read, exp, wok, why)
@@ -277,7 +277,26 @@ func (w *World) singleAcceptLoopBlocked() bool {
 	if w.Spec.Server.Acceptors > 1 || w.Spec.Attack == nil {
 		return false
 	}
-	return w.Tap.hostileSessionsOpened() > 0
+	n, _ := w.Tap.hostileSessionsOpened()
+	return n > 0
+}
+
+// starvedByHostile: the session's failure is the known head-of-line blocking of a
+// single Accept loop: a hostile session was opened before the application got this
+// session (if it ever did), and the client gave up waiting for the SOCKS reply or the
+// dial failed.
+func (w *World) starvedByHostile(rt *sessRT, clientErr string) bool {
+	if w.Spec.Server.Acceptors > 1 || w.Spec.Attack == nil {
+		return false
+	}
+	n, first := w.Tap.hostileSessionsOpened()
+	if n == 0 {
+		return false
+	}
+	if rt.sconn != nil && rt.acceptedAt <= first+time.Second {
+		return false // the application had the session before any hostile session could hold Accept
+	}
+	return rt.sconn == nil || strings.Contains(clientErr, "socks5 response")
 }
 
 // quotaChecks: C19 end to end. Per user, the server's upload/download counters
